@@ -209,10 +209,10 @@ UNITS['c12'] = {
     'mutants': [
         ('cache_stores_when_bypassed', 'if !self.no_cache {', 'if true {', ['C12.cache']),
         ('lookup_ignores_the_bypass', 'if self.no_cache { return None; }', '', ['C12.lookup']),
-        ('memoize_stores_under_another_cursor', 'c.cache(t, s, r.clone());', 'c.cache(t, Cursor { pos: 0 }, r.clone());', ['C12.memoize']),
-        ('memoize_does_not_store', 'c.cache(t, s, r.clone());', '', ['C12.memoize']),
-        ('memoize_stores_successes_only', 'c.cache(t, s, r.clone());', 'if r.is_ok() { c.cache(t, s, r.clone()); }', ['C12.memoize']),
-        ('memoize_stores_before_running', 'let r = call_production(p, c, s);\n        c.cache(t, s, r.clone());', 'let r0 = c.lookup(t, s); let r = call_production(p, c, s);\n        if let Some(x) = r0 { c.cache(t, s, x); }', ['C12.memoize']),
+        ('memoize_stores_under_another_cursor', 'c.cache(t, s, clone_value(&r));', 'c.cache(t, Cursor { pos: 0 }, clone_value(&r));', ['C12.memoize']),
+        ('memoize_does_not_store', 'c.cache(t, s, clone_value(&r));', '', ['C12.memoize']),
+        ('memoize_stores_successes_only', 'c.cache(t, s, clone_value(&r));', 'if r.is_ok() { c.cache(t, s, clone_value(&r)); }', ['C12.memoize']),
+        ('memoize_stores_before_running', 'let r = call_production(p, c, s);\n        c.cache(t, s, clone_value(&r));', 'let r0 = c.lookup(t, s); let r = call_production(p, c, s);\n        if let Some(x) = r0 { c.cache(t, s, x); }', ['C12.memoize']),
     ],
 }
 
